@@ -2,7 +2,7 @@
    BatchModel is run on the inputs the real calcHermesBatch / hermes2go binaries were run on and
    compared with what they printed. *)
 From Coq Require Import ZArith List Bool Uint63.
-From Hermes Require Import BatchModel.
+From Hermes Require Import Util BatchModel.
 Import ListNotations.
 Open Scope Z_scope.
 
@@ -62,12 +62,13 @@ Definition count_case_ok (c : list int * int * int) : bool :=
   end &&
   ((Uint63.to_Z scn =? no_scan) || (len (nonempty_lines file) =? Uint63.to_Z scn)).
 
-(* dispatch case: (n*2^40 + a*2^20 + b, log ids the real simulator printed for -lines a-b on n lines) *)
+(* dispatch case: (n*2^40 + a*2^20 + b, what the real simulator started for -lines a-b on a batch file with n
+   non-empty lines: log id * 2^20 + index of the non-empty line whose text it executed (2^20-1: none of them)) *)
 Definition disp_case_ok (c : int * list int) : bool :=
-  let '(h, ids) := c in
+  let '(h, obs) := c in
   let z := Uint63.to_Z h in
   let n := z / (sh20 * sh20) in let a := (z / sh20) mod sh20 in let b := z mod sh20 in
-  match executed (a, b) (repeat 0 (Z.to_nat n)) with
-  | Some l => list_eqb Z.eqb (map fst l) (map Uint63.to_Z ids)
+  match executed (a, b) (Util.zrange 0 (Z.to_nat n)) with
+  | Some l => list_eqb Z.eqb (map (fun p : Z * Z => fst p * sh20 + snd p) l) (map Uint63.to_Z obs)
   | None => false
   end.
